@@ -1,9 +1,91 @@
 import Gzx.Util
+import Gzx.Model.Poses
+import Gzx.Model.OneDScan
+import Gzx.Model.QRMirror
 namespace Gzx.Driver.C09
-open Gzx
+open Gzx Gzx.Poses Gzx.OneDScan
 
-/-- line-protocol handler of suite `c09` (arguments after the suite name) -/
+/-- "0101/1100" -> image (driver-side parsing; the model itself never indexes a list) -/
+def parseImg (w h : Nat) (s : String) : Img :=
+  let rs := (s.splitOn "/").map parseBits
+  ⟨w, h, fun x y => ((rs[y]?).bind (fun r => r[x]?)).getD false⟩
+
+def showImg (m : Img) : String :=
+  s!"{m.w}x{m.h}:" ++ "/".intercalate ((rows m).map showBits)
+
+def faultOf (s : String) : Fault :=
+  if s == "nf" then .notFound else if s == "ck" then .checksum else if s == "fm" then .format else .illegalArg
+
+/-- scripted row decoder: entries `row.rev.kind[.text.x0.x1]`, everything else NotFound -/
+def parseDec (s : String) : Nat → Bool → Res Hit :=
+  let entries := if s == "-" then [] else s.splitOn ","
+  let tbl : List (Nat × Bool × Res Hit) := entries.filterMap (fun e =>
+    match e.splitOn "." with
+    | [r, v, "ok", t, x0, x1] =>
+      match r.toNat?, t.toNat?, parseInt? x0, parseInt? x1 with
+      | some r, some t, some x0, some x1 => some (r, v == "1", .ok ⟨t, none, [(x0, (r : Int)), (x1, (r : Int))]⟩)
+      | _, _, _, _ => none
+    | [r, v, "ok1", t, x0] =>   -- a hit with a single result point (points are not flipped then)
+      match r.toNat?, t.toNat?, parseInt? x0 with
+      | some r, some t, some x0 => some (r, v == "1", .ok ⟨t, none, [(x0, (r : Int))]⟩)
+      | _, _, _ => none
+    | [r, v, k] => r.toNat?.map (fun r => (r, v == "1", .error (faultOf k)))
+    | _ => none)
+  fun row rev =>
+    match tbl.find? (fun e => e.1 == row && e.2.1 == rev) with
+    | some e => e.2.2
+    | none => .error .notFound
+
+def parseBlack (s : String) : Nat → Bool :=
+  let bs := parseBits s
+  fun y => (bs[y]?).getD false
+
+def showHit : Res Hit → String
+  | .ok h =>
+    let o := match h.orientation with | some o => toString o | none => "none"
+    s!"ok text={h.text} orient={o} pts=" ++ ";".intercalate (h.points.map (fun p => s!"{p.1},{p.2}"))
+  | .error (.panic _) => "PANIC"
+  | .error e => "ERR:" ++ e.tag
+
+def parseOutcome (s : String) : Res (Option (QRMirror.Outcome String)) :=
+  if s.startsWith "D:" then .ok (some ⟨(s.drop 2).toString, false⟩)
+  else if s.startsWith "M:" then .ok (some ⟨(s.drop 2).toString, true⟩)
+  else if s == "NEITHER" then .ok none
+  else .error .format
+
+/-- line-protocol handler of suite `c09` -/
 def handle : List String → String
+  | ["rotccw", w, h, rs] =>
+    match w.toNat?, h.toNat? with
+    | some w, some h => showImg (rotCCW (parseImg w h rs))
+    | _, _ => "bad-op"
+  | ["rot90", w, h, rs] =>
+    match w.toNat?, h.toNat? with
+    | some w, some h => showImg (rot90 (parseImg w h rs))
+    | _, _ => "bad-op"
+  | ["mirror", w, h, rs] =>
+    match w.toNat?, h.toNat? with
+    | some w, some h => showImg (transpose (parseImg w h rs))
+    | _, _ => "bad-op"
+  | ["row180", w, h, rs, y] =>
+    match w.toNat?, h.toNat?, y.toNat? with
+    | some w, some h, some y => showBits (row (rot180 (parseImg w h rs)) y)
+    | _, _, _ => "bad-op"
+  | ["scalepad", w, h, rs, k, p] =>
+    match w.toNat?, h.toNat?, k.toNat?, p.toNat? with
+    | some w, some h, some k, some p => showImg (pad p (scale k (parseImg w h rs)))
+    | _, _, _, _ => "bad-op"
+  | ["visit", h, th] =>
+    match h.toNat? with
+    | some h => showNatList (visitOrder h (th == "1"))
+    | none => "bad-op"
+  | ["scan", w, h, th, rot, black, black2, dec, dec2] =>
+    match w.toNat?, h.toNat? with
+    | some w, some h =>
+      showHit (decode w h (th == "1") (rot == "1") (parseBlack black) (parseDec dec) (parseBlack black2) (parseDec dec2))
+    | _, _ => "bad-op"
+  | ["qrpair", a, b] =>
+    if QRMirror.pairConsistent (parseOutcome a) (parseOutcome b) then "consistent" else "inconsistent"
   | _ => "bad-op"
 
 end Gzx.Driver.C09
